@@ -4,6 +4,7 @@ import (
 	"errors"
 	"math"
 	"reflect"
+	"strings"
 	"sync"
 
 	structform "github.com/elastic/go-structform"
@@ -338,13 +339,56 @@ func (s *uStateList) OnArrayFinished(ctx gotype.UnfoldCtx) error {
 	return nil
 }
 
+// UNorm is unfolded by a processing unfolder that uses the TARGET ITSELF as its
+// cell ("reuse cell and post process"): the library unfolds into the target with
+// its default struct unfolder and then calls the post-processing function,
+// which normalises the value (upper-case B, absolute A).
+type UNorm struct {
+	A int
+	B string
+}
+
+func (u UNorm) Fold(v structform.ExtVisitor) error {
+	if err := v.OnObjectStart(2, structform.AnyType); err != nil {
+		return err
+	}
+	if err := v.OnKey("a"); err != nil {
+		return err
+	}
+	if err := v.OnInt(u.A); err != nil {
+		return err
+	}
+	if err := v.OnKey("b"); err != nil {
+		return err
+	}
+	if err := v.OnString(u.B); err != nil {
+		return err
+	}
+	return v.OnObjectFinished()
+}
+
+func normaliseUNorm(to *UNorm) {
+	to.B = strings.ToUpper(to.B)
+	if to.A < 0 && to.A != math.MinInt {
+		to.A = -to.A
+	}
+}
+
+// UnfoldUNorm is the processing unfolder of UNorm.
+func UnfoldUNorm(to *UNorm) (interface{}, func(*UNorm, interface{}) error) {
+	return to, func(to *UNorm, _ interface{}) error {
+		normaliseUNorm(to)
+		return nil
+	}
+}
+
 // UnfoldOptions returns the option registering the user unfolders above.
 func UnfoldOptions() gotype.UnfoldOption {
 	// ONE option value for the whole process, as an application would keep it
 	// in a package variable: whatever the option value holds is shared by all
 	// unfolders created from it
 	unfoldOptsOnce.Do(func() {
-		unfoldOpts = gotype.Unfolders(append([]interface{}{UnfoldUNum, UnfoldUStr, UnfoldUProc, UnfoldUState}, upUnfolders...)...)
+		unfoldOpts = gotype.Unfolders(append([]interface{}{UnfoldUNum, UnfoldUStr, UnfoldUProc, UnfoldUState, UnfoldUNorm}, upUnfolders...)...)
 	})
 	return unfoldOpts
 }
@@ -359,11 +403,12 @@ var (
 	uStrType   = reflect.TypeOf(UStr{})
 	uProcType  = reflect.TypeOf(UProc{})
 	uStateType = reflect.TypeOf(UState{})
+	uNormType  = reflect.TypeOf(UNorm{})
 )
 
 // UsesUserUnfolder reports whether a target of type t needs UnfoldOptions.
 func UsesUserUnfolder(t reflect.Type) bool {
-	return usesAny(t, 0, map[reflect.Type]bool{}, append([]reflect.Type{uNumType, uStrType, uProcType, uStateType}, upTypes...)...)
+	return usesAny(t, 0, map[reflect.Type]bool{}, append([]reflect.Type{uNumType, uStrType, uProcType, uStateType, uNormType}, upTypes...)...)
 }
 
 func usesAny(t reflect.Type, depth int, seen map[reflect.Type]bool, wanted ...reflect.Type) bool {
@@ -395,7 +440,34 @@ func init() {
 		PoolType{Name: "UStr", Type: uStrType, NeedsUnfoldOpts: true},
 		PoolType{Name: "UProc", Type: uProcType, NeedsUnfoldOpts: true},
 		PoolType{Name: "UState", Type: uStateType, NeedsUnfoldOpts: true},
+		PoolType{Name: "UNorm", Type: uNormType, NeedsUnfoldOpts: true, Normalises: true},
 	)
+	poolFolders[uNormType] = func(rv reflect.Value) model.V {
+		return model.Obj(
+			model.Member{Key: []byte("a"), Val: model.Int(rv.Field(0).Int())},
+			model.Member{Key: []byte("b"), Val: model.Str([]byte(rv.Field(1).String()))})
+	}
+	poolAssign[uNormType] = func(dst reflect.Value, v model.V) error {
+		if v.K == model.VNull {
+			dst.Set(reflect.Zero(dst.Type()))
+			return nil
+		}
+		if v.K != model.VObj {
+			return errors.New("UNorm accepts objects only")
+		}
+		// the target itself is the cell: members are assigned in place (what is
+		// not mentioned stays), then the value is normalised
+		tmp := reflect.New(reflect.TypeOf(uprocCell{})).Elem()
+		tmp.Field(0).SetInt(dst.Field(0).Int())
+		tmp.Field(1).SetString(dst.Field(1).String())
+		if err := assign(tmp, v, "$", 1); err != nil {
+			return err
+		}
+		n := UNorm{A: int(tmp.Field(0).Int()), B: tmp.Field(1).String()}
+		normaliseUNorm(&n)
+		dst.Set(reflect.ValueOf(n))
+		return nil
+	}
 	poolFolders[uStateType] = func(rv reflect.Value) model.V {
 		l := model.V{K: model.VArr, A: []model.V{}}
 		for i := 0; i < rv.Field(1).Len(); i++ {
